@@ -5,10 +5,12 @@ pub trait Suite {
 }
 
 pub mod codec;
+pub mod naming;
 
 pub fn make(name: &str) -> Option<Box<dyn Suite>> {
     match name {
         "codec" => Some(Box::new(codec::Codec::new())),
+        "naming" => Some(Box::new(naming::Naming::new())),
         _ => None,
     }
 }
